@@ -209,6 +209,23 @@ pub fn run(ctx: &mut Ctx) {
         ctx.nontrivial_by_construction += total;
         ctx.mark_exhaustive(sub, "all state values (with selector for types 9 and 18) of types 1, 2, 3, 4, 9, 11, 18 x flags in front of the state {random, all clear, all set}: the reported sync state equals the two bits at its position");
     }
+    // the same generated payloads, a tenth of them through the sentence path (fragments included), on the
+    // alloc and no-allocator builds
+    for cfg in crate::adapter::configs().into_iter().skip(1) {
+        let n_other = ctx.tier.pick(20_000, 200_000);
+        ctx.run_proptest("random-assignments", cfg, n_other, crate::gen::payload::payload_inputs(SUPPORTED.to_vec(), crate::gen::payload::LenMode::Standard, Prop::C12, 8, 0.15), check);
+    }
+    // every field inverted as a whole and bit by bit against all-zero and all-one backgrounds
+    for &t in crate::refmodel::layout::SUPPORTED.iter() {
+        for len in crate::refmodel::layout::standard_lengths(t) {
+            let mut inputs = Vec::new();
+            crate::gen::payload::field_sweep(t, len, |b| inputs.push(b));
+            for b in inputs {
+                ctx.sweep_case("field-sweep", &crate::adapter::STD, &Input::Payload { bytes: b }, check);
+            }
+        }
+    }
+    ctx.mark_exhaustive("field-sweep", "every field of every specified shape x {inverted whole, each single bit inverted} x {all-zero, all-one background}");
     // every pair of fields at their special values (see gen::payload::pairwise_specials)
     {
         let mut mix = crate::util::Mix::new(ctx.seed, 0xa11);
